@@ -34,6 +34,7 @@ PRISTINE_SHALLOW = None
 PRISTINE_FAST = None
 PRISTINE_DEEP = None
 BATTERY: list = []
+COUNTRY_BATTERY: list = []
 
 
 # ---------------------------------------------------------------------------------------------
@@ -235,6 +236,9 @@ def gen_history(index: int, vseed: int, pool: dict, tier: str) -> dict:
     full_tail = rng.random() < (0.02 if tier == "quick" else 0.05)
     ntail = len(BATTERY) if full_tail else rng.choice([0, 3, 6, 6])
     tail = BATTERY if full_tail else rng.sample(BATTERY, min(ntail, len(BATTERY)))
+    if not full_tail and rng.random() < 0.01:
+        # every country through both entry points: all accessors of one IBAN per country, then a BIC of each country
+        tail = COUNTRY_BATTERY
     tail_from = len(history)
     for op, tg in tail:
         history.append(op)
@@ -615,6 +619,9 @@ def setup_process() -> None:
     pool = runner.build_pool_isolated()
     runner.WARM_BATTERY[:] = runner.default_warm_battery(pool)
     BATTERY[:] = [(op, tg) for op, tg in battery(pool)]
+    cb = [(["iban_props", pool["valid_ibans"][cc][0]], None) for cc in pool["countries"] if pool["valid_ibans"].get(cc)]
+    cb += [(["bic_validate", pool["bics"]["by_country"][cc][0], False], None) for cc in pool["countries"]]
+    COUNTRY_BATTERY[:] = cb
     ensure_views()
 
 
